@@ -7,7 +7,8 @@ unrolled per shape); the evidence says so, a bounded native stand-in covers rand
 from .common import *
 from .runtime_lib import amethod, ANYT
 from pyvc.values import VDict, VSet, VTuple, VList, SV
-from pyvc.engine import fresh_val, fresh, Event, Unsupported
+from pyvc.engine import fresh_val, fresh, Event, Unsupported, PyRaise
+from pyvc.repo import ExternalRef
 import pyvc.z as Z
 
 MAP = "cobald.daemon.config.mapping"
@@ -88,7 +89,7 @@ class load_name_interface:
         ctx.ghost.setdefault("c19_load_outcomes", []).append((outcome, value))
 
     raises = {CE: lambda c, absolute_name, exc: Z.is_none(exc.where.t), "ImportError": lambda c, absolute_name, exc: True}
-    exact_raises = False
+    exact_raises = True
 
 
 @contract(MAP + ":Translator.construct", props=["C19"])
@@ -223,15 +224,184 @@ for _n in range(4):
     contract(MAP + ":Translator.translate_hierarchy#list(%d)" % _n, props=["C19"])(_mk_list_shape(_n))
 
 
-@contract(MAP + ":Translator.translate_hierarchy#scalar", props=["C19"])
-class scalar_shape:
-    """plain data (str, number, bool, None) comes back unchanged; nothing is called and nothing can fail"""
-    body_key = MAP + ":Translator.translate_hierarchy"
-    params = {"self": TR, "structure": TAny(), "where": TStr(), "**construct_kwargs": lambda ctx: VDict({"target": SV(fresh_val("extra_target"), TAny())})}
-    result = TAny()
+def _mk_scalar(name, ty):
+    class scalar_shape:
+        __doc__ = "plain data (%s) comes back unchanged; nothing is called and nothing can fail" % name
+        body_key = MAP + ":Translator.translate_hierarchy"
+        params = {"self": TR, "structure": ty, "where": TStr(), "**construct_kwargs": lambda ctx: VDict({"target": SV(fresh_val("extra_target"), TAny())})}
+        result = TAny()
 
-    def requires(c, self, structure, where, construct_kwargs):
-        return c.Not(Z.is_refv(structure.t))
+        def ensures(c, self, structure, where, construct_kwargs, result):
+            return {"unchanged": result.t == structure.t}
+    return scalar_shape
 
-    def ensures(c, self, structure, where, construct_kwargs, result):
-        return {"unchanged": result.t == structure.t}
+
+for _name, _ty in (("str", TStr()), ("number", TNum(inf=True, nan=True)), ("bool", TBool()), ("None", TNone())):
+    contract(MAP + ":Translator.translate_hierarchy#scalar(%s)" % _name, props=["C19"])(_mk_scalar(_name, _ty))
+
+
+# ---- construct -------------------------------------------------------------------------------------------------------------
+def _mk_construct(keys, nargs, kwkeys):
+    class shape:
+        __doc__ = ("mapping keys %r (__args__ of length %s), extra keyword arguments %r: the name under __type__ is resolved once, the factory is called exactly once with "
+                   "__args__ as positional and the remaining items + extra keywords as keyword arguments; its outcome is the outcome; the mapping given is not modified"
+                   % (list(keys), nargs, list(kwkeys)))
+        body_key = MAP + ":Translator.construct"
+        params = {"self": TR,
+                  "mapping": lambda ctx: VDict({k: (VList([SV(fresh_val("arg%d" % j), TAny()) for j in range(nargs)]) if k == "__args__" else SV(fresh_val("m_%d" % n), TAny())) for n, k in enumerate(keys)}),
+                  "**kwargs": lambda ctx: VDict({k: SV(fresh_val("kw_%d" % n), TAny()) for n, k in enumerate(kwkeys)})}
+        result = TAny()
+        has_events = True
+
+        def _expected_call(c, mapping, kwargs):
+            merged = dict(mapping)
+            merged.update(kwargs)
+            fq = merged.pop("__type__")
+            args = merged.pop("__args__", [])
+            return fq, list(args), merged
+
+        def _calls_ok(c, mapping, kwargs, upto_call):
+            ctx = c.ctx
+            fq, args, kw = shape._expected_call(c, mapping, kwargs)
+            loads = ctx.ghost.get("c19_load_outcomes", [])
+            calls = ctx.ghost.get("c19_factory_calls", [])
+            out = [len(loads) == 1, Event.e_kind(c.event_at(0)) == ctx.E.event_kind("load_name" if loads and loads[0][0] == "return" else "load_name-failed"), Event.e_a(c.event_at(0)) == _t(fq)]
+            if upto_call:
+                out.append(len(calls) == 1)
+                if len(calls) == 1:
+                    call = calls[0]
+                    out += [_t(call["factory"]) == _t(loads[0][1]), len(call["args"]) == len(args), list(call["kwargs"]) == list(kw)]
+                    out += [_t(a) == _t(b) for a, b in zip(call["args"], args)]
+                    out += [_t(call["kwargs"][k]) == _t(kw[k]) for k in kw if k in call["kwargs"]]
+            else:
+                out.append(len(calls) == 0)
+            return c.And(*[z3.BoolVal(x) if isinstance(x, bool) else x for x in out])
+
+        def ensures(c, self, mapping, kwargs, result):
+            outs = c.ctx.ghost.get("c19_factory_outcomes", [])
+            return {"one-lookup-then-one-call-with-args-positional-and-the-rest-as-keywords": shape._calls_ok(c, mapping, kwargs, True),
+                    "the-result-is-what-the-factory-returned": (result.t == _t(outs[0][1])) if len(outs) == 1 and outs[0][0] == "return" else False,
+                    "nothing-else-happens": c.n_events() == 3,
+                    "the-mapping-given-is-not-modified": list(mapping) == list(keys) and (("__args__" not in keys) or len(mapping["__args__"]) == nargs)}
+
+        def _raise(c, self, mapping, kwargs, exc):
+            ctx = c.ctx
+            loads = ctx.ghost.get("c19_load_outcomes", [])
+            outs = ctx.ghost.get("c19_factory_outcomes", [])
+            same_mapping = list(mapping) == list(keys)
+            if loads and loads[0][0] == "raise":
+                return c.And(exc.t == _t(loads[0][1]), shape._calls_ok(c, mapping, kwargs, False), c.n_events() == 1, same_mapping)
+            if outs and outs[0][0] == "raise":
+                return c.And(exc.t == _t(outs[0][1]), shape._calls_ok(c, mapping, kwargs, True), c.n_events() == 3, same_mapping)
+            return False
+
+        raises = {"BaseException": lambda c, self, mapping, kwargs, exc: c.And(_unlocated_or_foreign(c, exc), shape._raise(c, self, mapping, kwargs, exc))}
+    return shape
+
+
+for _keys, _nargs, _kw in [(("__type__",), 0, ()), (("__type__", "a"), 0, ("target",)), (("a", "__type__", "__args__", "b"), 2, ()), (("__args__", "__type__"), 1, ("target", "x")),
+                           (("__type__", "target"), 0, ("target",))]:
+    contract(MAP + ":Translator.construct#mapping(%s)+kwargs(%s)" % (",".join(_keys), ",".join(_kw)), props=["C19"])(_mk_construct(_keys, _nargs, _kw))
+
+
+@contract(MAP + ":Translator.construct#reserved-keyword", props=["C19"])
+class construct_reserved:
+    """__type__ / __args__ cannot be smuggled in as extra keyword arguments"""
+    body_key = MAP + ":Translator.construct"
+    params = {"self": TR, "mapping": lambda ctx: VDict({"__type__": SV(fresh_val("m0"), TAny())}), "**kwargs": lambda ctx: VDict({"__args__": SV(fresh_val("kw0"), TAny())})}
+
+    def ensures(c, self, mapping, kwargs, result):
+        return {"never-returns-normally": False}
+    raises = {"AssertionError": lambda c, self, mapping, kwargs, exc: True}
+
+
+# ---- load_name: against an abstract import system ---------------------------------------------------------------------------
+PyObj = TAbs("python-object", fields={}, events=False)
+PyObj.open_attrs = True
+SysModules = TMap(val=PyObj, key=TStr())
+
+
+def _sys_modules(I):
+    ctx = I.ctx
+    sv = ctx.ghost.get("c19_sys_modules")
+    if sv is None:
+        t = z3.Const("sys_modules", Z.Val)
+        sv = ctx.typed(t, SysModules)
+        ctx.assume(z3.And(Z.Val.id(t) > 0, Z.Val.id(t) < ctx.alloc0))
+        ctx.assume_class(t, SysModules)
+        ctx.touch(sv)
+        ctx.ghost["c19_sys_modules"] = sv
+    return sv
+
+
+def _import(I, args, kwargs):
+    """__import__(name) (assumed contract of the import system): either the module `name` gets imported - then sys.modules[name]
+    exists - or an ImportError (possibly a subclass) is raised; importing has no effect this code observes otherwise"""
+    ctx = I.ctx
+    ctx.ghost["nondet"] = True
+    name = ctx.to_val(args[0])
+    mods = _sys_modules(I)
+    if ctx.choose(2, "__import__") == 1:
+        ctx.ghost["c19_import"] = "failed"
+        raise PyRaise(I.sym_exception(ExternalRef("ImportError"), "ImportError"))
+    ctx.ghost["c19_import"] = "ok"
+    ctx.assume(z3.Select(z3.Select(ctx.field_array("$mhas"), ctx.ref_id(mods)), name.t))
+    return SV(fresh_val("module"), PyObj)
+
+
+def install(E):
+    E.externals["builtins.__import__"] = _import
+    E.externals["value:sys.modules"] = _sys_modules
+
+
+def _mk_load_name(name):
+    path = name.split(".")
+
+    class shape:
+        __doc__ = ("name %r: the imported module if the whole name is importable; else the attribute chain %s below the root module sys.modules[%r]; a missing attribute is an "
+                   "UNLOCATED ConfigurationError naming the object, a missing root module an ImportError" % (name, ".".join(path[1:]) or "(none)", path[0]))
+        body_key = MAP + ":Translator.load_name"
+        params = {"absolute_name": lambda ctx: name}
+        result = TAny()
+
+        def _mods(c):
+            return c.ctx.ghost.get("c19_sys_modules")
+
+        def ensures(c, absolute_name, result):
+            ctx = c.ctx
+            mods = shape._mods(c)
+            if mods is None:
+                return {"the-import-system-is-consulted": False}
+            mval = lambda key: z3.Select(z3.Select(ctx.rd(c.old_heap, "$mval"), Z.Val.id(mods.t)), Z.mk_str(S(key)))
+            if ctx.ghost.get("c19_import") == "ok":
+                return {"an-importable-name-is-its-module": result.t == mval(name)}
+            t = mval(path[0])
+            for comp in path[1:]:
+                t = Z.attr_of(t, S(comp))
+            return {"else-the-attribute-chain-below-the-root-module": result.t == t}
+
+        def _root_missing(c):
+            ctx = c.ctx
+            mods = shape._mods(c)
+            return z3.Not(z3.Select(z3.Select(ctx.rd(c.old_heap, "$mhas"), Z.Val.id(mods.t)), Z.mk_str(S(path[0])))) if mods is not None else False
+
+        raises = {"ImportError": lambda c, absolute_name, exc: c.And(exc.cls_is("ImportError"), shape._root_missing(c), c.ctx.ghost.get("c19_import") == "failed"),
+                  CE: lambda c, absolute_name, exc: c.And(exc.cls_is(CE), Z.is_none(exc.where.t), c.Not(shape._root_missing(c)), c.ctx.ghost.get("c19_import") == "failed", len(path) > 1)}
+    return shape
+
+
+for _nm in ("pkg", "pkg.mod", "pkg.mod.factory", "pkg.mod.Class.method"):
+    contract(MAP + ":Translator.load_name#name(%s)" % _nm, props=["C19"])(_mk_load_name(_nm))
+
+
+@contract(MAP + ":ConfigurationError.__init__", props=["C19"])
+class conf_error_init:
+    """the location and the cause are stored as given"""
+    params = {"self": TObj(CE, where=TAny(), what=TAny()), "what": TAny(), "where": TAny()}
+    new_object = "self"
+
+    def writes(c, self, what, where):
+        return [(self, "where"), (self, "what")]
+
+    def ensures(c, self, what, where):
+        return {"location-stored": self.where.t == where.t, "cause-stored": self.what.t == what.t}
